@@ -84,7 +84,7 @@ def messages(name):
     return out
 
 
-RATE_BEHAVIOURS = ['close', 'reset', 'reset-after-banner', 'silent', 'garbage', 'stop-listening', 'exceeded']
+RATE_BEHAVIOURS = ['close', 'reset', 'urgent-reset', 'reset-after-banner', 'silent', 'garbage', 'stop-listening', 'exceeded']
 
 
 def cases(tier, seed):
@@ -354,7 +354,7 @@ def run_rate(c):
     script = {'banner': 'SSH-2.0-OpenSSH_9.1', 'kex': k, 'hostkeys': {'ssh-ed25519': {'type': 'ed25519'}}, 'gex': None, 'linger': 4, 'finish_wait': 0.5}
     sel = {'ge': 2 + c.get('after', 0)}   # connection 0: handshake, 1: host-key probe, 2..: rate check
     beh = c['beh']
-    ops = {'close': [{'op': 'close_before'}], 'reset': [{'op': 'reset_before'}], 'reset-after-banner': [{'op': 'then_reset'}], 'silent': [{'op': 'stall_before'}],
+    ops = {'close': [{'op': 'close_before'}], 'reset': [{'op': 'reset_before'}], 'urgent-reset': [{'op': 'urgent_reset_before'}], 'reset-after-banner': [{'op': 'then_reset'}], 'silent': [{'op': 'stall_before'}],
            'garbage': [{'op': 'random', 'seed': 4, 'len': 40}, {'op': 'then_close'}], 'exceeded': [{'op': 'replace', 'hex': b'Exceeded MaxStartups\r\n'.hex()}, {'op': 'then_close'}], 'stop-listening': []}[beh]
     script['faults'] = [dict(o, conn=sel, at='banner') for o in ops]
     pr = peermod.ServerPeer(script)
